@@ -9,8 +9,16 @@ IDENTITY = {('u32', 'wc'), ('wc', 'u32')}
 def conv_defs(src, dst, n, mode=None, scalars=None, relax_identity=False):
     d = {'SRC': CODE[src], 'DST': CODE[dst], 'SRCN': src, 'DSTN': dst, 'N': n}
     if mode is not None: d['MODE'] = mode
-    if scalars is not None: d['SCALARS'] = scalars
+    if scalars is not None:
+        # scalars: tuple of encoded lengths (concrete shape), see harness/scalar_seq.h
+        d['SCALARS'] = 1; d['SHAPE_K'] = len(scalars); d['SHAPE_LENS'] = '{' + ','.join(str(x) for x in scalars) + '}' if scalars else '{0}'
     if src != 'l1' and ((scalars is None and mode in (None, 2)) or dst == 'l1') and (src, dst) not in IDENTITY:
         d['EXPECT_THROW'] = 1
     if relax_identity and (src, dst) in IDENTITY: d['IDENTITY_ALIAS'] = 1
     return d
+
+import itertools
+def shapes(src, k):
+    """all concrete shapes (encoded length per scalar) of k scalars in source form src"""
+    lens = {'u8': (1, 2, 3, 4), 'u16': (1, 2), 'u32': (1,), 'wc': (1,), 'l1': (1,)}[src]
+    return list(itertools.product(lens, repeat=k))
